@@ -37,6 +37,14 @@ def lexgen(run: Run, maxlex: int) -> list[dict]:
     return LG.generate(run, maxlex)
 
 
+def indent(run: Run) -> list[dict]:
+    """Line layouts (leading whitespace x line shape) with the token stream or error the line-structure model predicts
+    (Indent.tla)."""
+    from . import indent as IG
+
+    return IG.generate(run)
+
+
 def editgen(run: Run, seeds: list[str], repl: list[str], ops=("prefix", "del", "ins", "rep"), name="editgen") -> list[dict]:
     """Every proper prefix / single-character edit of every seed (EditGen.tla); returns
     [{"src", "seed", "op", "pos", "cls"}] with the edit applied by the canonical representative."""
